@@ -39,6 +39,16 @@ let handle (toks: string list) : string =
   | "txtenc" :: id :: fs :: hex :: [] ->
       let f = (match fs with "dos3x" -> TDos | "prodos" -> TProdos | _ -> TCpm) in
       id ^ " " ^ (match text_encode f (std_term f) (hexarg hex) with Some l -> "ok:" ^ hex_of_bytes l | None -> "none")
+  | "recpack" :: id :: fs :: rl :: recs :: [] ->
+      (* recpack id fs rl num:hextext,num:hextext,... -> chunks (index:bytes) and end of file *)
+      let f = (match fs with "dos3x" -> TDos | _ -> TProdos) in
+      let rs = if recs = "-" then [] else List.map (fun p -> match String.split_on_char ':' p with
+                 | [n; h] -> (n_of_int (int_of_string n), hexarg (if h = "" then "-" else h))
+                 | _ -> failwith "recpack") (String.split_on_char ',' recs) in
+      (match pack_rec f (n_of_int (int_of_string rl)) rs with
+       | None -> id ^ " refused"
+       | Some img -> id ^ " ok " ^ String.concat "|" (List.map (fun (c, b) -> string_of_int (int_of_n c) ^ ":" ^ hex_of_bytes b) (r_chunks img))
+                     ^ " eof=" ^ string_of_int (int_of_n (r_eof img)))
   | "txtdec" :: id :: fs :: hex :: [] ->
       let f = (match fs with "dos3x" -> TDos | "prodos" -> TProdos | _ -> TCpm) in
       id ^ " ok:" ^ hex_of_bytes (text_decode f (hexarg hex))
